@@ -8,12 +8,14 @@ def run(ctx):
     n = 250 if ctx.tier == "quick" else 6000
     collected = []
     fails = CC.run_scenarios(ctx, "C13", n, steps=60, on_scenario=lambda seed, s: collected.append((seed, s)))
+    # session-heavy scenarios: many subscriptions, SUBACKs outstanding across connection losses, reconnects without Session Present
+    fails_s = CC.run_scenarios(ctx, "C13", n, steps=70, profile="session", on_scenario=lambda seed, s: collected.append((seed, s)))
     CC.session_corr(ctx, collected)
     ctx.cov["rule"] = ("generated scenarios through the real mqtt_client on the scripted stream: API calls (publish QoS 0/1/2 with properties, subscribe, unsubscribe, receive, per-operation "
                        "cancellation signals), a broker (acks with reason codes/properties, inbound QoS 0/1/2 messages, held-back replies), byte chunking, connection loss with partial delivery, "
                        "reconnects with changing Receive Maximum / Server Keep Alive / Session Present, virtual time, then a fault-free suffix and cancel() or async_disconnect; "
                        "the C13 monitor runs on every transcript; non-trivial = distinct scenario with >= 2 (re)connections and > 3 operations")
-    found = CC.report(ctx, "C13", fails)
+    found = CC.report(ctx, "C13", fails) or CC.report(ctx, "C13", fails_s, profile="session")
     report_broken_ties(ctx, found)
     if ctx.tier == "thorough" and not ctx.ties_broken:
         for m, msg in leanchecker(ctx.lean.get("modules", [])):
